@@ -17,7 +17,7 @@ def sigs():
 
 BUILD_ID = {'ark': 0, 'min': 1}
 BYTES_ARG = re.compile(r'^(el\.dec|el\.deser|af\.deser|enc\.deser|af\.from_random_bytes|el\.rand|af\.rand)')
-BYTES_RES = {'el.enc', 'el.enc.from_elem', 'el.enc.from_ref', 'el.enc.arr_from', 'el.ser', 'af.ser', 'el.hash', 'af.hash'}
+BYTES_RES = {'el.enc', 'el.enc.from_elem', 'el.enc.from_ref', 'el.enc.arr_from', 'el.ser', 'af.ser', 'el.hash', 'af.hash', 'el.ser_uncompressed', 'af.ser_uncompressed'}
 ERRCODE = {'InvalidEncoding': 1, 'InvalidSliceLength': 2, 'Ser:InvalidData': 1, 'Ser:IoError': 3}
 
 def hexs(s): return [int(x, 16) for x in s.split(',')] if s != '-' else []
